@@ -48,7 +48,7 @@ def run(ctx):
             sf.set_semantic_constraints(rng.choice(["default", "hypervalent", "octet_rule", tablegen.random_table(rng)]))
             table = sf.get_semantic_constraints()
             g = LiveGen(table, rng, p_branch=0.22)
-        x = g.string(nfrag=rng.choice([1, 2, 2, 3]), length=rng.choice([5, 15, 40, 100]))
+        x = g.string(nfrag=rng.choice([1, 2, 2, 3, 3, 11, 30]), length=rng.choice([5, 15, 40, 100]) if rng.random() < 0.8 else 6)
         if it % 8 == 7:
             x = g.string(nfrag=rng.choice([1, 2]), length=rng.choice([150, 300]), ring_dense=True)
         if rng.random() < 0.25:
@@ -179,7 +179,7 @@ def run(ctx):
         if rng.random() < 0.15:
             m, _, _ = standard_system(rng, nrings=rng.choice([1, 2]))
         else:
-            m = random_tree_mol(rng, rng.choice([1, 3, 6, 12, 25]), ncomp=rng.choice([1, 1, 2, 3, 4]), p_ring=rng.choice([0.1, 0.3]),
+            m = random_tree_mol(rng, rng.choice([1, 3, 6, 12, 25]), ncomp=rng.choice([1, 1, 2, 3, 4, 12]), p_ring=rng.choice([0.1, 0.3]),
                                 p_bracket=0.3, table=lax)
         if not m.atoms:
             continue
